@@ -98,7 +98,7 @@ func Verif_C04_concurrent_writers() {
 		}(w)
 	}
 	// concurrently: an inbound UPDATE (handler writes), and the keep-alive timer fires
-	c.send(updateMessageType, []byte{0, 0, 0, 0})
+	c.send(verifMsgUpdate, []byte{0, 0, 0, 0})
 	if f := e.p.fsms[out]; f != nil && f.keepAliveTimer != nil {
 		verifFireTimer(f.keepAliveTimer)
 	}
@@ -113,7 +113,7 @@ func Verif_C04_concurrent_writers() {
 		for k := 0; k < C; k++ {
 			n, at := 0, -1
 			for i, fr := range frames {
-				if fr.typ == updateMessageType && c04SameBytes(fr.body, c04Body(w, k)) {
+				if fr.typ == verifMsgUpdate && c04SameBytes(fr.body, c04Body(w, k)) {
 					n++
 					at = i
 				}
@@ -129,10 +129,10 @@ func Verif_C04_concurrent_writers() {
 	}
 	nE, nH := 0, 0
 	for _, fr := range frames {
-		if fr.typ == updateMessageType && c04SameBytes(fr.body, e.pl.writeInEstablished) {
+		if fr.typ == verifMsgUpdate && c04SameBytes(fr.body, e.pl.writeInEstablished) {
 			nE++
 		}
-		if fr.typ == updateMessageType && c04SameBytes(fr.body, e.pl.writeInHandler) {
+		if fr.typ == verifMsgUpdate && c04SameBytes(fr.body, e.pl.writeInHandler) {
 			nH++
 		}
 	}
@@ -184,7 +184,7 @@ func Verif_C04_teardown_and_reconnect() {
 	for k := 0; k < 2; k++ {
 		n := 0
 		for _, fr := range frames {
-			if fr.typ == updateMessageType && c04SameBytes(fr.body, c04Body(0, k)) {
+			if fr.typ == verifMsgUpdate && c04SameBytes(fr.body, c04Body(0, k)) {
 				n++
 			}
 		}
@@ -204,9 +204,9 @@ func Verif_C04_teardown_and_reconnect() {
 	if c2 == nil || c2 == c1 {
 		return
 	}
-	c2.send(openMessageType, e.openBody())
+	c2.send(verifMsgOpen, e.openBody())
 	verifQuiesce()
-	c2.send(keepAliveMessageType, nil)
+	c2.send(verifMsgKeepalive, nil)
 	verifQuiesce()
 	verifAssert("second-session-established", e.pl.nEstab == 2)
 	before := len(c2.writes)
@@ -233,9 +233,9 @@ func Verif_C04_writes_with_hold_time_zero() {
 		verifAssert("dialled", false)
 		return
 	}
-	c.send(openMessageType, mkOpenBody(e.cfg.remoteAS, 0, e.remoteID))
+	c.send(verifMsgOpen, mkOpenBody(e.cfg.remoteAS, 0, e.remoteID))
 	verifQuiesce()
-	c.send(keepAliveMessageType, nil)
+	c.send(verifMsgKeepalive, nil)
 	verifQuiesce()
 	verifAssert("established-with-hold-time-zero", e.pl.nEstab == 1 && e.pl.writer != nil)
 	if e.pl.writer == nil {
@@ -253,8 +253,8 @@ func Verif_C04_writes_with_hold_time_zero() {
 		}
 		close(done)
 	}()
-	c.send(updateMessageType, []byte{0, 0, 0, 0})
-	c.send(updateMessageType, []byte{0, 0, 0, 0})
+	c.send(verifMsgUpdate, []byte{0, 0, 0, 0})
+	c.send(verifMsgUpdate, []byte{0, 0, 0, 0})
 	<-done
 	verifQuiesce()
 	frames, whole := c04Parse(c.writes)
@@ -263,7 +263,7 @@ func Verif_C04_writes_with_hold_time_zero() {
 	for k := 0; k < C; k++ {
 		n, at := 0, -1
 		for i, fr := range frames {
-			if fr.typ == updateMessageType && c04SameBytes(fr.body, c04Body(0, k)) {
+			if fr.typ == verifMsgUpdate && c04SameBytes(fr.body, c04Body(0, k)) {
 				n++
 				at = i
 			}
@@ -275,13 +275,13 @@ func Verif_C04_writes_with_hold_time_zero() {
 	}
 	nE, nH, nK := 0, 0, 0
 	for _, fr := range frames {
-		if fr.typ == updateMessageType && c04SameBytes(fr.body, e.pl.writeInEstablished) {
+		if fr.typ == verifMsgUpdate && c04SameBytes(fr.body, e.pl.writeInEstablished) {
 			nE++
 		}
-		if fr.typ == updateMessageType && c04SameBytes(fr.body, e.pl.writeInHandler) {
+		if fr.typ == verifMsgUpdate && c04SameBytes(fr.body, e.pl.writeInHandler) {
 			nH++
 		}
-		if fr.typ == keepAliveMessageType {
+		if fr.typ == verifMsgKeepalive {
 			nK++
 		}
 	}
